@@ -292,6 +292,14 @@ class Interp:
         v = fresh(typ, self.path.name(base))
         if v.typ.kind == 'Seq':
             self.path.assume(seq_len(v) >= 0)       # len() of a Python sequence is never negative
+        if v.typ.kind == 'Map' and v.typ.args[1].kind == 'Seq':
+            k = z3.Const('k!ln', zsort(v.typ.args[0]))
+            inner = SV(v.typ.args[1], map_val(v)[k])
+            self.path.assume(z3.ForAll([k], seq_len(inner) >= 0))     # lists stored in a dict have non-negative lengths too
+        if v.typ.kind == 'Seq' and v.typ.args[0].kind == 'Seq':
+            i = z3.Int('i!ln')
+            inner = SV(v.typ.args[0], seq_arr(v)[i])
+            self.path.assume(z3.ForAll([i], seq_len(inner) >= 0))
         if v.typ.kind == 'Map' and v.typ.default:
             # normal form of defaultdict-typed maps: missing keys carry the factory value
             k = z3.Const('k!dm', zsort(v.typ.args[0]))
